@@ -11,8 +11,8 @@
 #include <unistd.h>
 
 // ======================================================================= C10 =
-enum Plan { P_NONE, P_ABORT, P_ERROR, P_TIMEOUT, P_TOOMANY_CONT, P_TOOMANY_ABORT, P_NR_RESUME, P_NR_ABANDON, P_MAPFAULT, P_NPLANS };
-static const char* PLAN_NAMES[] = {"none", "abort", "error", "timeout", "toomany-continue", "toomany-abort", "notready-resume", "notready-abandon", "file-truncated-during-evaluation"};
+enum Plan { P_NONE, P_ABORT, P_ERROR, P_TIMEOUT, P_TOOMANY_CONT, P_TOOMANY_ABORT, P_NR_RESUME, P_NR_ABANDON, P_MAPFAULT, P_OPENFAIL, P_NPLANS };
+static const char* PLAN_NAMES[] = {"none", "abort", "error", "timeout", "toomany-continue", "toomany-abort", "notready-resume", "notready-abandon", "file-truncated-during-evaluation", "file-cannot-be-opened"};
 enum BufKind { B_TEXT, B_PE, B_ELF, B_EMPTY, B_MANY, B_FIBER, B_TEXT2, B_GAPCUT, B_GAP2, B_GAP8, B_NKINDS };
 static const char* BUF_NAMES[] = {"text", "pe", "elf", "empty", "many", "fiberbomb", "text2", "gap-cut-short", "gap-of-2", "gap-of-8"};
 struct Op { int buf; int plan; int k; int entry; int flags; int mdata; };   // entry: 0 mem, 1 file, 2 blocks(2 parts), 3 process memory of a sleeping child
@@ -65,9 +65,11 @@ static H10 gen_h10(Rng& rng) {
   for (int i = 0; i < n; i++) {
     if (longrun) { static const int LR[] = {B_FIBER, B_GAPCUT, B_GAP2, B_TEXT2, B_GAP8, B_GAPCUT, B_TEXT, B_GAP8}; Op o; o.buf = LR[rng.below(8)]; o.plan = P_NONE; o.k = 0; o.entry = 0; o.flags = 3; o.mdata = 0; h.ops.push_back(o); continue; }
     Op o; o.buf = (int) rng.below(B_NKINDS); o.plan = rng.chance(2, 5) ? P_NONE : (int) rng.below(P_MAPFAULT);   // P_MAPFAULT: only in its own family, below
+    if (o.plan == P_NONE && rng.chance(1, 12)) o.plan = P_OPENFAIL;   // a scan through the file / descriptor entry point that fails before any data is read
     o.k = (int) rng.below(40); o.entry = (int) rng.below(3); o.flags = (i > 0 && rng.chance(3, 4)) ? h.ops[i - 1].flags : (int) rng.below(4); o.mdata = (int) rng.below(3);
     if (o.plan == P_NR_RESUME || o.plan == P_NR_ABANDON) o.entry = 2;
-    else if (rng.chance(1, 14) && o.plan != P_TOOMANY_CONT && o.plan != P_TOOMANY_ABORT && o.plan != P_MAPFAULT) { o.entry = 3; if (o.plan == P_TIMEOUT) o.plan = P_ERROR; }
+    if (o.plan == P_OPENFAIL) o.entry = 1;
+    else if (rng.chance(1, 14) && o.plan != P_TOOMANY_CONT && o.plan != P_TOOMANY_ABORT && o.plan != P_MAPFAULT && o.plan != P_OPENFAIL) { o.entry = 3; if (o.plan == P_TIMEOUT) o.plan = P_ERROR; }
     h.ops.push_back(o);
   }
   // one history in 16 has one scan of a mapped file that is cut short while its condition is being evaluated (after the
@@ -128,6 +130,8 @@ static ScanOut exec_op(YR_SCANNER* sc, const H10& h, const Op& o, bool reference
       static std::string t_path; t_path = path; static int t_left; t_left = count_imports(h);
       rec.hook = [](Recorder&, YR_SCAN_CONTEXT*, int msg, void*) { if (msg == CALLBACK_MSG_MODULE_IMPORTED && --t_left == 0) { if (truncate(t_path.c_str(), 4096)) {} } return -1; };
     } else write_file(path, buf);
+    if (o.plan == P_OPENFAIL) { unlink(path.c_str()); rc = (o.k & 1) ? yr_scanner_scan_file(sc, path.c_str()) : yr_scanner_scan_fd(sc, -1); }
+    else
     rc = yr_scanner_scan_file(sc, path.c_str());
   } else if (o.entry == 3) {
     rc = yr_scanner_scan_proc(sc, proc_child());
@@ -142,7 +146,7 @@ static ScanOut exec_op(YR_SCANNER* sc, const H10& h, const Op& o, bool reference
   out.rc = rc; out.trace = rec.text; out.clock_reads = g_clock.reads;
   // what the API reports as the culprit of a failed scan is part of the observable result
   if (rc != ERROR_SUCCESS && rc != ERROR_BLOCK_NOT_READY) { YR_STRING* es = yr_scanner_last_error_string(sc); YR_RULE* er = yr_scanner_last_error_rule(sc); out.trace += std::string("last_error_string=") + (es ? es->identifier : "-") + " last_error_rule=" + (er ? er->identifier : "-") + "\n"; }
-  if (rc == ERROR_SCAN_TIMEOUT || rec.too_many || (rec.reply_at >= 0 && rec.reply_at < rec.nmsgs) || (o.plan == P_MAPFAULT && rc == ERROR_COULD_NOT_MAP_FILE)) out.fired = true;
+  if (rc == ERROR_SCAN_TIMEOUT || rec.too_many || (rec.reply_at >= 0 && rec.reply_at < rec.nmsgs) || (o.plan == P_MAPFAULT && rc == ERROR_COULD_NOT_MAP_FILE) || (o.plan == P_OPENFAIL && rc != ERROR_SUCCESS)) out.fired = true;
   sim_clock_reset();
   return out;
 }
@@ -186,7 +190,8 @@ static Diff10 run_h10(const H10& h, YR_RULES* rules, Stats* st, bool destroy_che
     if (st) { st->c[std::string("ops.") + PLAN_NAMES[o.plan]]++; if (subj.fired) st->c[std::string("faults_fired.") + PLAN_NAMES[o.plan]]++; st->c[std::string("buf.") + BUF_NAMES[o.buf]]++; st->c["sim_time_ns"] += (subj.rc == ERROR_SCAN_TIMEOUT) ? 2000LL * 1000000000LL : 0; }
     if (subj.rc != ref.rc) { d.op = (int) i; d.what = "return-code"; d.tag = std::string(yr_error_name(ref.rc)) + "->" + yr_error_name(subj.rc); d.detail = "scan " + std::to_string(i) + " returned " + yr_error_name(subj.rc) + ", a fresh scanner " + yr_error_name(ref.rc); break; }
     if (subj.trace != ref.trace) { d.op = (int) i; d.what = "trace"; d.tag = tag_of(ref.trace, subj.trace); d.detail = "scan " + std::to_string(i) + " differs from a fresh scanner: " + d.tag; break; }
-    pending_abandoned = subj.rc == ERROR_BLOCK_NOT_READY;
+    // a scan that fails before it starts (the file cannot be opened) leaves a suspended earlier scan suspended
+    pending_abandoned = subj.rc == ERROR_BLOCK_NOT_READY || (pending_abandoned && h.ops[i].plan == P_OPENFAIL && subj.rc != ERROR_SUCCESS);
     if (!pending_abandoned) { std::string inv = context_invariants(sc); if (!inv.empty()) { d.op = (int) i; d.what = "invariant"; d.tag = inv; d.detail = "after scan " + std::to_string(i) + ": " + inv; break; } }
   }
   yr_scanner_destroy(sc);
@@ -267,11 +272,16 @@ static const char* C20_RULES =
   "rule x_at { strings: $a = \"EXTMARK\" condition: $a at ext_off }\nrule x_in { strings: $a = \"EXTMARK\" condition: $a in (ext_off..ext_off + 2) }\n"
   "rule x_of { strings: $a = \"of_one\" $b = \"of_three\" $c = \"EXTMARK\" condition: ext_n of them }\n"
   "rule x_loop { condition: for any i in (0..ext_n) : ( i == 2 ) }\nrule x_cmp_ext { condition: ext_i > ext_off }\nrule x_str2 { condition: ext_t contains \"needle\" }\nrule x_streq { condition: ext_s == ext_t }\nrule x_modname { condition: math == 42 }\n";
-static const char* C20_NAMES[] = {"x_int", "x_int_arith", "x_bool", "x_float", "x_str", "x_at", "x_in", "x_of", "x_loop", "x_cmp_ext", "x_str2", "x_streq", "x_modname"};
+static const char* C20_NAMES[] = {"x_int", "x_int_arith", "x_bool", "x_float", "x_str", "x_at", "x_in", "x_of", "x_loop", "x_cmp_ext", "x_str2", "x_streq", "x_modname", "x_q", "x_q2"};
 // `math` is deliberately the name of a built-in module that the rules do not import: externals and module objects share one table inside a scanner
-static const char* IDS[] = {"ext_i", "ext_b", "ext_f", "ext_s", "ext_off", "ext_n", "ext_t", "math"};
-static const char ID_TYPES[] = {'i', 'b', 'f', 's', 'i', 'i', 's', 'i'};
-static const int NIDS = 8;
+// ext_q and g_q2 ("ext_q" + digits) are a pair of which one name is a prefix of the other and which fall into the same
+// bucket of the scanner's 64-bucket objects table (found at start-up with yara's own hash function)
+static std::string g_q2 = "ext_q0";
+static const char* IDS[] = {"ext_i", "ext_b", "ext_f", "ext_s", "ext_off", "ext_n", "ext_t", "math", "ext_q", g_q2.c_str()};
+extern "C" uint32_t yr_hash(uint32_t seed, const void* buffer, size_t len);
+static void init_prefix_pair() { uint32_t b = yr_hash(0, "ext_q", 5) % 64; for (int k = 0; k < 100000; k++) { std::string n = "ext_q" + std::to_string(k); if (yr_hash(0, n.data(), n.size()) % 64 == b) { g_q2 = n; break; } } IDS[9] = g_q2.c_str(); }
+static const char ID_TYPES[] = {'i', 'b', 'f', 's', 'i', 'i', 's', 'i', 'i', 'i'};
+static const int NIDS = 10;
 
 
 // ---- literal twins ("externals behave in conditions like literals of the same type"): every t_* rule below is
@@ -378,6 +388,8 @@ static std::set<std::string> model_verdicts(const Env& env, int buf = 0) {
   if (env.at("ext_t").s.find("needle") != std::string::npos) m.insert("x_str2");
   if (env.at("ext_s").s == env.at("ext_t").s) m.insert("x_streq");
   if (I("math") == 42) m.insert("x_modname");
+  if (I("ext_q") == 42) m.insert("x_q");
+  if (I(g_q2.c_str()) == 42) m.insert("x_q2");
   for (auto& t : twin_verdicts(env, buf)) m.insert(t);
   return m;
 }
@@ -458,7 +470,7 @@ static Diff20 run_h20(const H20& h, Stats* st) {
   }
   for (int k = 0; k < NIDS; k++) if (!C.count(IDS[k])) { Val v; v.type = ID_TYPES[k]; v.i = k == 5 ? 2 : k == 4 ? 5 : 42; v.f = 2.5; v.s = "hay needle"; if (v.type == 'b') v.i = 1; api_define(0, comp, IDS[k], v.type, v); C[IDS[k]] = v; }
   if (d.op >= 0) { yr_compiler_destroy(comp); return d; }
-  if (yr_compiler_add_string(comp, (std::string(C20_RULES) + twin_source(false, nullptr)).c_str(), NULL) != 0) { yr_compiler_destroy(comp); fail(opi, "harness", "probe rules do not compile", ""); return d; }
+  if (yr_compiler_add_string(comp, (std::string(C20_RULES) + "rule x_q { condition: ext_q == 42 }\nrule x_q2 { condition: " + g_q2 + " == 42 }\n" + twin_source(false, nullptr)).c_str(), NULL) != 0) { yr_compiler_destroy(comp); fail(opi, "harness", "probe rules do not compile", ""); return d; }
   YR_RULES* rules = NULL; yr_compiler_get_rules(comp, &rules); yr_compiler_destroy(comp);
   std::vector<YR_RULES*> all_rules{rules};
   Env R = C; std::vector<YR_SCANNER*> scs; std::vector<Env> S;
@@ -547,6 +559,7 @@ int main(int argc, char** argv) {
   std::string cmd = args.pos.empty() ? "run" : args.pos[0];
   yr_initialize();
   init_of_table();
+  init_prefix_pair();
   Stats st;
   if (cmd == "replay") {
     J rp; if (args.pos.size() < 2 || !J::load(args.pos[1], rp)) return 2;
